@@ -97,7 +97,7 @@ def timed_scenarios(rng, tier):
                 d["beh"]["cost"] = rng.choice((0, 0, 50_000, 300_000))
         devs = [d["name"] for d in S.devices(scn)]
         if i % 4 == 1:
-            scn["stims"] = [{"real": rng.randrange(1, 9) * 700_000 * den + 333 * den, "comp": rng.choice(devs)} for _ in range(rng.randrange(1, 3))]
+            scn["stims"] = [{"real": k * 700_000 * den + 333 * den, "comp": rng.choice(devs)} for k in rng.sample(range(1, 9), rng.randrange(1, 3))]
             scn["stims"].sort(key=lambda s: s["real"])
         scn["n_ticks"] = rng.randrange(3, 7)
         out.append(scn)
